@@ -149,13 +149,13 @@ impl Sim {
         let e = new_env(start, min_temp, max_ttl);
         let mut u = Universe::new(&e, N);
         let own = <Address as soroban_sdk::testutils::Address>::generate(&e);
-        if self_held {
-            u.push(own.clone());
-        }
+        // the contract's own address is always account N of the universe (an offer may name it; nobody
+        // can sign for it here)
+        u.push(own.clone());
         let holder0 = if self_held { own.clone() } else { u.a(0).clone() };
         let c = catch(|| match (kind, self_held) {
-            (Kind::Owner, false) => e.register(ownable_example::ExampleContract, (holder0.clone(),)),
-            (Kind::Admin, false) => e.register(Acl, (holder0.clone(),)),
+            (Kind::Owner, false) => e.register_at(&own, ownable_example::ExampleContract, (holder0.clone(),)),
+            (Kind::Admin, false) => e.register_at(&own, Acl, (holder0.clone(),)),
             (Kind::Owner, true) => e.register_at(&own, ownable_example::ExampleContract, (holder0.clone(),)),
             (Kind::Admin, true) => e.register_at(&own, Acl, (holder0.clone(),)),
         });
@@ -338,6 +338,19 @@ fn directed(t: &mut Trace) {
         s.accept(t, &[1, 2]);
         s.guarded(t, &[0]);
         s.guarded(t, &[2]);
+
+        // the invitee is the contract's own address: nobody can accept for it, whoever else signs
+        let mut s = Sim::new(t, "directed offer to the contract itself", kind, 1, 200_000, 100);
+        s.offer(t, N, 150, &[0]);
+        s.accept(t, &[]);
+        s.accept(t, &[1, 2, 3]);
+        s.accept(t, &[0]);
+        s.guarded(t, &[0]);
+        s.goto(t, 150);
+        s.accept(t, &[]);
+        s.goto(t, 151);
+        s.accept(t, &[0, 1, 2, 3]);
+        s.guarded(t, &[0]);
 
         // the same with an equal and with a longer replacement; accept exactly at lu and lu+1
         let mut s = Sim::new(t, "directed replace equal/longer, accept at lu", kind, 1, 200_000, 100);
@@ -596,7 +609,8 @@ fn random_sequence(t: &mut Trace, rng: &mut Rng, k: u64, seed: u64, len: u64) {
                 s.advance(t, n);
             }
         } else if r < 58 {
-            let new = rng.below(N as u64) as usize;
+            // now and then the invitee is the contract's own address (index N)
+            let new = if rng.chance(6) { N } else { rng.below(N as u64) as usize };
             let lu = if rng.chance(12) { 0 } else { gen_lu(rng, &s) };
             let new = if lu == 0 && rng.chance(70) { s.last_offer.map(|(a, _)| a).unwrap_or(new) } else { new };
             let auth = gen_auth(rng, holder);
